@@ -472,7 +472,9 @@ def run_pd(ctx, params, with_ctx, skip, style, coerce, postponed=False, via=None
     if postponed:
         ctx.hit('pydantic:postponed-annotations')
     plist = [tuple(p) for p in params]
-    validator = vpd.PydanticValidator(coerce=coerce, exclude_param=(lambda name, ann, default: name == 'skip') if skip else None)
+    pred = (lambda name, ann, default: name == 'skip') if skip else None
+    # constructed by keyword or positionally in the documented order (coerce, exclude_param)
+    validator = vpd.PydanticValidator(coerce, pred) if len(plist) % 2 else vpd.PydanticValidator(coerce=coerce, exclude_param=pred)
     try:
         ns, src, disp, is_async = build(plist, with_ctx, skip, style, validator, {}, annotate=True, postponed=postponed)
     except Exception as e:
